@@ -131,6 +131,10 @@ pub fn jobs(id: &str, thorough: bool) -> Vec<Job> {
                 name: "I/C06-inputs",
                 run: engine_i::c06_inputs,
             });
+            v.push(Job::Other {
+                name: "E/malformed-payloads",
+                run: crate::engine_e::malformed,
+            });
         }
         "C07" => {
             for c in scen::s_set(thorough) {
